@@ -217,6 +217,20 @@ def former_admin_probe(r, ops, tags):
                 ops.append(f"block bvm {v} gov Vote s:@adm1-0 s:reject s:r")
             ops.append("q prop @adm1-0")
     ops.append(f"q obj role @{x}")
+    if kind == "frozen" and r.random() < 0.6:
+        # the frozen administrator asks for its own logout and takes the request back (or has it voted down): it must be
+        # frozen again afterwards, not available
+        ops.append(f"block bvm {x} role LogoutRole s:@{x} s:reason")
+        ops.append(f"q prop @{x}-0")
+        ops.append(f"q obj role @{x}")
+        if r.random() < 0.6:
+            ops.append(f"block bvm {x} gov WithdrawProposal s:@{x}-0 s:reason")
+        else:
+            for v in ("adm0", "adm1", "adm2"):
+                ops.append(f"block bvm {v} gov Vote s:@{x}-0 s:reject s:r")
+        ops.append(f"q prop @{x}-0")
+        ops.append(f"q obj role @{x}")
+        tags.add("former-admin:own-logout-taken-back")
     # an open proposal to vote on
     ops.append("block bvm adm2 appchain FreezeAppchain s:c4 s:reason")
     ops.append("q prop @adm2-0")
